@@ -317,7 +317,25 @@ def _released_types(F, b, blocks, gmap, depth):
         ga = [F.ts(a["t"]) for a in (r["args"] if isinstance(r, dict) else t.get("callee_args") or []) if "t" in a]
         ga = [gmap.get(x, x) for x in ga]
         if cb is not None and cb.get("name") == "from_raw" and F.handle_name((cb.get("impl") or {}).get("self_ty", -1)) == "Arc":
-            out.append(ga[0] if ga else "?")
+            # (an Arc rebuilt only to be parked - `ManuallyDrop::new(Arc::from_raw(p))`, the transient of a lending helper - releases nothing)
+            dl = t["dest"]["l"] if not t["dest"]["p"] else None
+            parked = False
+            for bl2 in b["blocks"]:
+                t2 = bl2["term"]
+                if t2["k"] == "call" and atomics.callee_of(t2) == "<core::mem::manually_drop::ManuallyDrop<T>>::new" and t2["args"]:
+                    pl2 = operand_place(t2["args"][0])
+                    if pl2 is not None and not pl2["p"] and pl2["l"] == dl:
+                        parked = True
+            if not parked:
+                out.append(ga[0] if ga else "?")
+        elif c in ("core::ptr::read", "<*const T>::read", "<*mut T>::read") and isinstance(r, dict):
+            # `let _ = ptr::read(arc)` with `arc: &Arc<X>`: an `Arc<X>` materialised bitwise and dropped - the same release
+            for a in r["args"]:
+                if "t" in a and F.handle_name(a["t"]) == "Arc":
+                    inner = [x["t"] for x in F.ty(a["t"]).get("args", []) if "t" in x]
+                    if inner:
+                        x = F.ts(inner[0])
+                        out.append(gmap.get(x, x))
         elif cb is not None and depth < 3 and not balance.is_api(F, cb):
             names = [g["name"] for g in cb.get("generics", []) if g["kind"] == "type"]
             sub = dict(zip(names, ga))
@@ -418,6 +436,13 @@ def _arms(F, A, rep, tag, gen, only_count=False):
                     # what matters: the arm gives up exactly an `Arc` of its own type - directly or inside a private helper
                     rel = _released_types(F, b, excl[variant], {}, 0)
                     want_ty = calls[0][1]
+                    if not rel:
+                        # ... or inside a closure handed to the borrow's lending helper (`x.with_arc(|arc| drop(ptr::read(arc)))`)
+                        fb2 = inline.inlined_lending(F, ik)  # (lending functions - `with_arc` - and the closures they are given, inlined)
+                        if fb2 is not None:
+                            e2 = _variant_arms(F, cfg.Body(fb2), fb2)
+                            if e2 is not None:
+                                rel = _released_types(F, fb2, e2[variant], {}, 0)
                     if rel != [want_ty]:
                         good, why = False, "the %s arm must rebuild (and so release) exactly one Arc<%s>; it rebuilds %s" % (variant, want_ty, rel or "nothing")
                     continue
